@@ -195,6 +195,20 @@ fn("insert", {"a": ("L", "v1"), "b": ("L", "s")}, lambda f, a: f(a["a"], 1, a["b
 fn("where", {"a": ("L", "v1"), "b": ("L", "v2")}, lambda f, a: f([True, False, True], a["a"], a["b"]), "L")
 fn("where", {"c": ("T", "zeros"), "a": ("L", "v1"), "b": ("L", "v2")}, lambda f, a: f(a["c"], a["a"], a["b"]), "L")
 fn("clip", {"a": ("L", "v1"), "lo": ("L", "s2"), "hi": ("L", "s")}, lambda f, a: f(a["a"], a["lo"], a["hi"]), "L")
+# optional unit-carrying arguments given with GAPS: an earlier one omitted or None, a later one supplied
+fn("clip", {"a": ("L", "v1"), "hi": ("L", "s2")}, lambda f, a: f(a["a"], None, a["hi"]), "L")
+fn("clip", {"a": ("L", "v1"), "lo": ("L", "s2")}, lambda f, a: f(a["a"], a["lo"], None), "L")
+fn("clip", {"a": ("L", "v1"), "hi": ("L", "s2")}, lambda f, a: f(a["a"], a_max=a["hi"], a_min=None), "L")
+VALUES["pinf"] = [0.5, float("inf"), 2.0]
+VALUES["ninf"] = [float("-inf"), 0.5, 2.0]
+VALUES["nanv"] = [float("nan"), 0.5, 2.0]
+VALUES["allinf"] = [float("-inf"), float("nan"), float("inf")]
+fn("nan_to_num", {"a": ("L", "pinf"), "p": ("L", "s")}, lambda f, a: f(a["a"], posinf=a["p"]), "L", no_alt=True)
+fn("nan_to_num", {"a": ("L", "ninf"), "n": ("L", "s")}, lambda f, a: f(a["a"], neginf=a["n"]), "L", no_alt=True)
+fn("nan_to_num", {"a": ("L", "nanv"), "v": ("L", "s2")}, lambda f, a: f(a["a"], nan=a["v"]), "L", no_alt=True)
+fn("nan_to_num", {"a": ("L", "allinf"), "v": ("L", "s2"), "n": ("L", "s")}, lambda f, a: f(a["a"], nan=a["v"], neginf=a["n"], posinf=a["v"]), "L", no_alt=True)
+fn("nan_to_num", {"a": ("L", "allinf"), "v": ("L", "s2"), "n": ("L", "s"), "p": ("L", "big1")}, lambda f, a: f(a["a"], nan=a["v"], posinf=a["p"], neginf=a["n"]), "L", no_alt=True)
+VALUES["big1"] = 7.0
 fn("linspace", {"a": ("L", "s2"), "b": ("L", "s")}, lambda f, a: f(a["a"], a["b"], 4), "L")
 fn("intersect1d", {"a": ("L", "c1"), "b": ("L", "c3")}, lambda f, a: f(a["a"], a["b"]), "L")
 fn("searchsorted", {"a": ("L", "csorted"), "v": ("L", "c3")}, lambda f, a: f(a["a"], a["v"]), "bare")
